@@ -24,7 +24,7 @@ from elementpath.datatypes import AnyURI, Float, DayTimeDuration, YearMonthDurat
 from elementpath.helpers import get_double
 from elementpath.xpath_nodes import XPathNode, ElementNode, TextNode, CommentNode, \
     ProcessingInstructionNode, DocumentNode, EtreeElementNode
-from elementpath.xpath_context import XPathSchemaContext
+from elementpath.xpath_context import XPathSchemaContext, ABSENT_FOCUS
 from elementpath.xpath_tokens import XPathFunction
 
 from ._xpath1_operators import XPath1Parser
@@ -114,7 +114,8 @@ def evaluate__last_function(self: XPathFunction, context: ta.ContextType = None)
         context = self.context
     elif context is None:
         raise self.missing_context()
-    elif context.size is None:
+
+    if context.size is None or context.item is ABSENT_FOCUS:
         raise self.missing_context("Context size is undefined")
     return context.size
 
@@ -126,6 +127,9 @@ def evaluate__position(self: XPathFunction, context: ta.ContextType = None) -> i
         context = self.context
     elif context is None:
         raise self.missing_context()
+
+    if context.item is ABSENT_FOCUS:
+        raise self.missing_context("Context position is undefined")
     return context.position
 
 
